@@ -376,6 +376,7 @@ omit hwf in
 theorem sh_eq_g {p : Nat × Nat} (hp : OnB pb p) : sh pb σ p = g p.1 p.2 := by
   unfold sh; rw [hg _ hp.1 _ hp.2]
 
+omit hwf in
 theorem noSq_iff : NoSqσ pb σ ↔ NoSquare pb g := by
   constructor
   · intro h y x hy hx
@@ -525,10 +526,10 @@ theorem encodes_code {pb : Problem} (hwf : WellFormed pb) :
   unfold RulesGridCode RulesGridWith
   constructor
   · rintro ⟨⟨hconn, hQσ⟩, hsq, hcnt⟩
-    exact ⟨(regions_iff hwf σ g hg hsq).1 hcnt, hconn, (noSq_iff hwf σ g hg).1 hsq,
+    exact ⟨(regions_iff hwf σ g hg hsq).1 hcnt, hconn, (noSq_iff σ g hg).1 hsq,
       (rule4_iff hwf σ g hg hcnt).1 hQσ⟩
   · rintro ⟨h1, hconn, h3, h4⟩
-    have hsq := (noSq_iff hwf σ g hg).2 h3
+    have hsq := (noSq_iff σ g hg).2 h3
     have hcnt := (regions_iff hwf σ g hg hsq).2 h1
     exact ⟨⟨hconn, (rule4_iff hwf σ g hg hcnt).2 h4⟩, hsq, hcnt⟩
 
@@ -572,5 +573,48 @@ theorem main_code (pb : Problem) (hwf : WellFormed pb) (P : PuzzleProg) (hP : pr
   · exact (loc_wt hwf c hc).1
 
 theorem total (pb : Problem) (hwf : WellFormed pb) : ∃ P, program pb = .ok P := ⟨_, program_eq hwf⟩
+
+/-! ### the theorem (geometric reading of rule 4), through the classification of the tetrominoes -/
+
+theorem noSqSet_shadedIn {pb : Problem} (hwf : WellFormed pb) {g : Nat → Nat → Bool} (h3 : NoSquare pb g)
+    {b : List (Int × Int)} (hb : b ∈ pb.blocks) : C11LitsShape.NoSqSet (shadedIn g b) := by
+  rintro ⟨y, x, ⟨m1, g1⟩, ⟨m2, g2⟩, ⟨m3, g3⟩, ⟨_, g4⟩⟩
+  have o2 := wf_onBoard hwf hb _ m2
+  have o3 := wf_onBoard hwf hb _ m3
+  simp only at o2 o3 g1 g2 g3 g4
+  exact h3 y x (by omega) (by omega) ⟨g1, g2, g3, g4⟩
+
+theorem rulesGrid_iff {pb : Problem} (hwf : WellFormed pb) (g : Nat → Nat → Bool) :
+    RulesGrid pb g ↔ RulesGridCode pb g := by
+  unfold RulesGrid RulesGridCode RulesGridWith
+  constructor
+  · rintro ⟨h1, h2, h3, h4⟩
+    refine ⟨h1, h2, h3, fun i j bi bj hbi hbj hij p hp q hq hadj => ?_⟩
+    have mi := List.mem_of_getElem? hbi
+    have mj := List.mem_of_getElem? hbj
+    rw [← C11LitsShape.sameShape_iff_sameCode _ _ (h1 bi mi) (h1 bj mj) (noSqSet_shadedIn hwf h3 mi)
+      (noSqSet_shadedIn hwf h3 mj)]
+    exact h4 i j bi bj hbi hbj hij p hp q hq hadj
+  · rintro ⟨h1, h2, h3, h4⟩
+    refine ⟨h1, h2, h3, fun i j bi bj hbi hbj hij p hp q hq hadj => ?_⟩
+    have mi := List.mem_of_getElem? hbi
+    have mj := List.mem_of_getElem? hbj
+    rw [C11LitsShape.sameShape_iff_sameCode _ _ (h1 bi mi) (h1 bj mj) (noSqSet_shadedIn hwf h3 mi)
+      (noSqSet_shadedIn hwf h3 mj)]
+    exact h4 i j bi bj hbi hbj hij p hp q hq hadj
+
+theorem rules_iff {pb : Problem} (hwf : WellFormed pb) (a : List Val) : Rules pb a ↔ RulesCode pb a := by
+  unfold Rules RulesCode
+  constructor
+  · rintro ⟨g, ha, hr⟩; exact ⟨g, ha, (rulesGrid_iff hwf g).1 hr⟩
+  · rintro ⟨g, ha, hr⟩; exact ⟨g, ha, (rulesGrid_iff hwf g).2 hr⟩
+
+/-- The full theorem. -/
+theorem main (pb : Problem) (hwf : WellFormed pb) (P : PuzzleProg) (hP : program pb = .ok P) :
+    EncodesRules P (Rules pb) ∧ P.KeysOk ∧ (∀ c ∈ P.cs, wtB c = true) := by
+  obtain ⟨h1, h2, h3⟩ := main_code pb hwf P hP
+  refine ⟨fun a => ?_, h2, h3⟩
+  rw [rules_iff hwf a]
+  exact h1 a
 
 end Cspuz.Proofs.C11Lits
